@@ -429,7 +429,10 @@ func (f *FS) Apply(op Op, partial int) (published string) {
 		ino, ok := f.names[op.Path]
 		if !ok {
 			if !op.Flags["O_CREAT"] && !op.Flags["O_TMPFILE"] {
-				// opened something we never saw created (pre-existing): treat as empty file
+				// a successful open of something that was never created here: a directory
+				// (listing it) - nothing comes into being; should it be a file after all and be
+				// written to, the self-check against the real directory says so
+				return
 			}
 			f.next++
 			ino = f.next
